@@ -305,10 +305,128 @@ fn panic_histories(ctx: &Ctx) -> (u64, u64) {
     (histories, runs)
 }
 
+
+// ---------------------------------------------------------------------------
+// Fourth sub-box: rank-polymorphic single-operator models run several times with inputs of
+// different rank. An operator must not keep anything it derived from an earlier run's
+// inputs: every run of a history must return what a freshly loaded model returns.
+
+fn poly_models() -> Vec<(&'static str, Vec<u8>, usize)> {
+    use vp_onnx as onnx;
+    let mk = |name: &str, node: onnx::Node, n_in: usize, consts: Vec<onnx::Tensor>| -> (Vec<u8>, usize) {
+        let mut g = onnx::Graph::new(name);
+        for i in 0..n_in {
+            g.inputs.push(onnx::ValueInfo::typed_no_shape(if i == 0 { "A" } else { "B" }, onnx::dtype::FLOAT));
+        }
+        g.initializers = consts;
+        g.nodes.push(node.named("op"));
+        g.outputs.push(onnx::ValueInfo::untyped("Y"));
+        (onnx::model_bytes(&g), n_in)
+    };
+    let mut v = Vec::new();
+    let mut push = |name: &'static str, x: (Vec<u8>, usize)| v.push((name, x.0, x.1));
+    push("Einsum(...ij,...jk->...ik)", mk("e1", onnx::Node::new("Einsum", &["A", "B"], &["Y"]).attr("equation", onnx::Attr::Str("...ij,...jk->...ik".into())), 2, vec![]));
+    push("Einsum(...i->...)", mk("e2", onnx::Node::new("Einsum", &["A"], &["Y"]).attr("equation", onnx::Attr::Str("...i->...".into())), 1, vec![]));
+    push("MatMul", mk("mm", onnx::Node::new("MatMul", &["A", "B"], &["Y"]), 2, vec![]));
+    push("Softmax(axis=-1)", mk("sm", onnx::Node::new("Softmax", &["A"], &["Y"]).attr("axis", onnx::Attr::Int(-1)), 1, vec![]));
+    push("ReduceSum(axes=[-1])", mk("rs", onnx::Node::new("ReduceSum", &["A", "axes"], &["Y"]), 1, vec![onnx::Tensor::i64("axes", &[1], &[-1])]));
+    push("Transpose", mk("tr", onnx::Node::new("Transpose", &["A"], &["Y"]), 1, vec![]));
+    push("Flatten(axis=1)", mk("fl", onnx::Node::new("Flatten", &["A"], &["Y"]).attr("axis", onnx::Attr::Int(1)), 1, vec![]));
+    push("Concat(axis=-1)", mk("cc", onnx::Node::new("Concat", &["A", "A"], &["Y"]).attr("axis", onnx::Attr::Int(-1)), 1, vec![]));
+    push("LayerNormalization(axis=-1)", mk("ln", onnx::Node::new("LayerNormalization", &["A", "scale"], &["Y"]).attr("axis", onnx::Attr::Int(-1)), 1, vec![onnx::Tensor::f32("scale", &[3], &[1.0, 0.5, 2.0])]));
+    push("Add", mk("add", onnx::Node::new("Add", &["A", "A"], &["Y"]), 1, vec![]));
+    v
+}
+
+fn poly_inputs(variant: usize) -> (rten_tensor::Tensor<f32>, rten_tensor::Tensor<f32>) {
+    let (sa, sb): (Vec<usize>, Vec<usize>) = match variant {
+        0 => (vec![2, 3], vec![3, 2]),
+        1 => (vec![2, 2, 3], vec![2, 3, 2]),
+        _ => (vec![1, 2, 2, 3], vec![1, 2, 3, 2]),
+    };
+    let na: usize = sa.iter().product();
+    let nb: usize = sb.iter().product();
+    (
+        rten_tensor::Tensor::from_data(&sa, (0..na).map(|i| (i as f32) - 3.0).collect::<Vec<_>>()),
+        rten_tensor::Tensor::from_data(&sb, (0..nb).map(|i| 2.0 - (i as f32)).collect::<Vec<_>>()),
+    )
+}
+
+fn poly_run(model: &rten::Model, n_in: usize, variant: usize) -> Result<Result<(Vec<usize>, Vec<u32>), String>, String> {
+    let (a, b) = poly_inputs(variant);
+    vp_core::catch(|| {
+        let mut inputs: Vec<(rten::NodeId, rten::ValueOrView)> = vec![(model.find_node("A").unwrap(), a.view().into())];
+        if n_in == 2 {
+            inputs.push((model.find_node("B").unwrap(), b.view().into()));
+        }
+        let y = model.find_node("Y").unwrap();
+        model.run(inputs, &[y], None).map_err(|e| format!("{e}")).and_then(|mut v| {
+            let t: rten_tensor::Tensor<f32> = v.remove(0).try_into().map_err(|_| "not f32".to_string())?;
+            Ok((t.shape().to_vec(), t.iter().map(|x| x.to_bits()).collect()))
+        })
+    })
+}
+
+fn poly_histories(ctx: &Ctx, only: Option<&Json>) -> (u64, u64) {
+    let mut fresh_ok = 0u64;
+    let mut histories = 0u64;
+    let mut runs = 0u64;
+    let mut hists: Vec<Vec<usize>> = Vec::new();
+    for a in 0..3 {
+        hists.push(vec![a]);
+        for b in 0..3 {
+            hists.push(vec![a, b]);
+            for c in 0..3 {
+                hists.push(vec![a, b, c]);
+            }
+        }
+    }
+    for (name, bytes, n_in) in poly_models() {
+        if let Some(o) = only {
+            if o["model"].as_str() != Some(name) {
+                continue;
+            }
+        }
+        let fresh = |variant: usize| -> Result<Result<(Vec<usize>, Vec<u32>), String>, String> {
+            match subject::load_bytes(bytes.clone(), LoadCfg::default()) {
+                Ok(m) => poly_run(&m, n_in, variant),
+                Err(e) => Ok(Err(e)),
+            }
+        };
+        let expect: Vec<_> = (0..3).map(fresh).collect();
+        fresh_ok += expect.iter().filter(|e| matches!(e, Ok(Ok(_)))).count() as u64;
+        for hist in &hists {
+            let Ok(model) = subject::load_bytes(bytes.clone(), LoadCfg::default()) else { continue };
+            histories += 1;
+            for (step, &v) in hist.iter().enumerate() {
+                runs += 1;
+                let got = poly_run(&model, n_in, v);
+                if got != expect[v] {
+                    ctx.violation(
+                        format!("a run returns something else than a freshly loaded model does after earlier runs with inputs of another rank [{name}]"),
+                        json!({"poly_history": {"model": name, "ranks": hist.iter().map(|x| x + 2).collect::<Vec<_>>()}}),
+                        format!("run #{} (input rank {}) of history {hist:?}: got {:?}, fresh model gives {:?}", step + 1, v + 2, got.as_ref().map(|r| r.as_ref().map(|x| &x.0)), expect[v].as_ref().map(|r| r.as_ref().map(|x| &x.0))),
+                    );
+                    break;
+                }
+            }
+        }
+    }
+    if only.is_none() && fresh_ok < 24 {
+        ctx.machinery(&format!("C25 rank-varying histories vacuous: only {fresh_ok} of 30 (model, rank) pairs run on a fresh model"));
+    }
+    ctx.observe_n("rank-varying histories: (model, input rank) pairs that run successfully on a fresh model", fresh_ok);
+    (histories, runs)
+}
+
 pub fn run(ctx: Ctx) -> ! {
     let alphabet = acts();
     if let Some(path) = &ctx.replay {
         let case = vp_core::read_replay_case(path);
+        if !case["poly_history"].is_null() {
+            let (h, r) = poly_histories(&ctx, Some(&case["poly_history"]));
+            ctx.finish("model_checking", json!({"states": h, "transitions": r, "traces_validated_against_impl": h, "samples": [case]}), vec![]);
+        }
         if !case["panic_history"].is_null() {
             let (h, r) = panic_histories(&ctx);
             ctx.finish("model_checking", json!({"states": h, "transitions": r, "traces_validated_against_impl": h, "samples": [case]}), vec![]);
@@ -346,9 +464,10 @@ pub fn run(ctx: Ctx) -> ! {
         t.states.extend(st.states);
     });
     let (ph, pr) = panic_histories(&ctx);
+    let (qh, qr) = poly_histories(&ctx, None);
     let mut t = total.into_inner().unwrap();
-    t.histories += ph;
-    t.runs += pr;
+    t.histories += ph + qh;
+    t.runs += pr + qr;
     if t.runs < 10_000 {
         ctx.machinery("C25 vacuous");
     }
@@ -361,6 +480,7 @@ pub fn run(ctx: Ctx) -> ! {
         "programs": t.programs,
         "history_depth": depth,
         "alphabet_size": alphabet.len(),
+        "rank_varying_histories": format!("{qh} histories of depth <=3 over input ranks {{2,3,4}} on 10 rank-polymorphic single-operator models (Einsum with ellipsis, MatMul, Softmax, ReduceSum, Transpose, Flatten, Concat, LayerNormalization, Add): every run must return bit-for-bit what a freshly loaded model returns"),
         "panic_histories": format!("{ph} histories of depth <=3 over {{ok run, run that panics inside an operator}} x {{same thread, fresh thread}} on a graph built through the hook re-exports: a run after a panicking run must succeed with the right value (no poisoned or held lock)"),
         "supplied_intermediates_sub_box": "alphabet {no extra, each operator-output value supplied by the caller with contents = computed + 16} x {borrowed, owned} x {all values, last op output}, fill 0; every history of depth <=2 in which at least one run supplies an intermediate",
         "explanation": "states = distinct (program, history) pairs (the model's only mutable state, the cached plan, is a function of the history); transitions = Model::run calls; every history runs on a freshly loaded real model",
